@@ -32,10 +32,10 @@ BOUNDS = {
 
 def describe(tier):
     return {
-        "rule": ep.RULE_PREFIX + "Oracle on EVERY node of EVERY tree: root = ('', input, '', 0, len(input), no parent); each node listed "
+        "rule": ep.RULE_PREFIX + ep.RULE_STRETCH + "Oracle on EVERY node of EVERY tree: root = ('', input, '', 0, len(input), no parent); each node listed "
         "exactly once (identity) by the node its parent pointer names; list(root) equals the identity pre-order walk; 0<=start<=end<=len(parent.value). "
         "Long texts (300 bytes to 70/140/300 kB) with every list of <= 2 (3) hits over 7 scaled positions x 4 kinds. Dedicated sub-structure families (scan level): the encoded/plain PowerShell grammar of C16, the URL grammars and Windows path grammar of C12, xor "
-        "carriers x keys, valid and truncated PE images. Object lifetime: for the block N=4,K<=2 and the ctx/mix stream families the caller keeps only list(scan(..)) / scan(..).children and drops the root; "
+        "carriers x keys, valid and truncated PE images, PE images with each of the 16 data directories pointed at the overlay after the last section (shorter / exactly / longer than what is there), at a section RVA and at the top of the 32-bit range, whole and truncated. Object lifetime: for the block N=4,K<=2 and the ctx/mix stream families the caller keeps only list(scan(..)) / scan(..).children and drops the root; "
         "every kept node must still reach the root through its parent pointers and slice its parent exactly as when the root is held. "
         "Non-trivial = a tree with at least one node two levels below the root or with decoder-supplied sub-structure (distinct by shape).",
         "bounds": BOUNDS[tier],
@@ -61,7 +61,7 @@ def long_configs(n, kmax):
         yield from itertools.product(cands, repeat=k)
 
 
-SUB = ["ps-enc", "ps-plain", "urlA", "urlB", "win", "xor", "pe"]
+SUB = ["ps-enc", "ps-plain", "urlA", "urlB", "win", "xor", "pe", "pe-dirs"]
 
 
 def plan(tier, seed):
@@ -182,6 +182,19 @@ def sub_inputs(tier, kind, part, nparts=8):
     elif kind == "pe":
         gen = (pre + pegen.valid_pe(n)[:cut] + suf for n in (1, 2) for cut in (None, 0x3F0, 0x300, 0x250) for pre in (b"", b"x", b"MZ ") for suf in (b"", b" t"))
         yield from take(gen)
+    elif kind == "pe-dirs":
+        # every data directory (16) pointed at: nothing, the overlay right after the last section (shorter than / exactly / longer than what is
+        # there), a section RVA, the top of the 32-bit range; whole and truncated images, at offset 0 and behind a prefix
+        def dirs():
+            for n in (1, 2):
+                end = 0x200 + 0x200 * n
+                for di in range(16):
+                    for va, size, overlay in ((end, 0x100, 0x100), (end, 0x100, 0x80), (end, 0x10000, 0), (end + 8, 0x18, 0x10), (0x1000, 0x80, 0), (0xFFFFFFF8, 8, 0), (end, 0xFFFFFFF0, 0x20)):
+                        img = pegen.valid_pe_dir(n, di, va, size, overlay)
+                        for cut in (None, end, end - 0x10, 0x250):
+                            for pre in (b"", b"xy "):
+                                yield pre + img[:cut]
+        yield from take(dirs())
 
 
 def run_sub(rec, tier, kind, part):
